@@ -233,3 +233,51 @@ def run(ctx) -> None:
                   "base axes", key_detail="reduction")
     else:
         raise AnalysisError(f"{integ.qualname}: the selection is not reduced by .sum(...) directly")
+
+
+# ---- added after the seeded change C13-seed5: step-by-step slicing must keep the earlier restriction
+_inner_run_c13 = run
+
+
+def run(ctx) -> None:  # noqa: F811
+    import ast as _ast
+
+    from ..model import dotted as _dotted, norm_text as _nt, walk_no_nested as _walk
+
+    ctx.rule("R-STEPWISE", "when PolarMeasurements.integrate restricts the array step by step (one slicing per limits "
+             "argument), every later step slices the working array produced by the earlier steps, not the full array "
+             "again: otherwise giving radial and azimuthal limits together silently drops the radial restriction")
+    f = ctx.repo.method("abtem.measurements", "PolarMeasurements", "integrate")
+    steps = []
+
+    def scan(body, guard):
+        for st in body:
+            if isinstance(st, _ast.If):
+                g = _nt(st.test)
+                scan(st.body, g if "limits" in g else guard)
+                scan(st.orelse, guard)
+            elif isinstance(st, _ast.Assign) and len(st.targets) == 1 and isinstance(st.targets[0], _ast.Name) \
+                    and isinstance(st.value, _ast.Subscript) and guard is not None:
+                steps.append((st, guard))
+
+    scan(f.node.body, None)
+    by_var: dict[str, list] = {}
+    for st, g in steps:
+        by_var.setdefault(st.targets[0].id, []).append((st, g))
+    found = False
+    for var, sts in by_var.items():
+        guards = {g for _, g in sts}
+        if len(sts) >= 2 and len(guards) >= 2:
+            found = True
+            sts = sorted(sts, key=lambda x: x[0].lineno)
+            for k, (st, g) in enumerate(sts):
+                base = st.value.value
+                ok = (isinstance(base, _ast.Name) and base.id == var) or k == 0  # the first step may start afresh
+                ctx.check(ok, "R-STEPWISE", f"{f.qualname}:{var} under `{g[:40]}`", f.loc(st),
+                          f"step slices the working array `{var}`",
+                          f"`{_nt(st)[:70]}` slices `{_nt(base)}` instead of the working array `{var}`: a restriction "
+                          "applied by an earlier step is discarded when both limits are given", key_detail=g[:30])
+    if not found:
+        ctx.ok("R-STEPWISE", f"{f.qualname}:single-selection", f.where,
+               "limits are applied in one selection (no step-by-step slicing)", nontrivial=False)
+    _inner_run_c13(ctx)
